@@ -361,7 +361,7 @@ FAMILIES = [
                 FAST_FUNCS, timeout=1200, rules=searcher_rules(2), unwind=lambda sh: 40, quick_shapes=["q_one_unterm", "q_two", "q_blank_mid", "q_crlf_mix", "q_blank_first", "q_nul"], shape_filter=lambda sh: sh.nl <= 3),
     ShapeFamily("c03_fast_candidate_all", ["C03", "C01"], SEARCHER, CORE_MOD, GEN,
                 "fast line path, every line is a Candidate (maximal prefilter false positives, re-check on stripped line) == grep model",
-                FAST_FUNCS, timeout=1200, rules=searcher_rules(2), unwind=lambda sh: 40, quick_shapes=["q_one_unterm", "q_two", "q_blank_mid", "q_crlf_mix", "q_blank_first", "q_nul"], shape_filter=lambda sh: sh.nl <= 3),
+                FAST_FUNCS, timeout=1200, rules=searcher_rules(2), unwind=lambda sh: 40, quick_shapes=["q_one_unterm", "q_two", "q_blank_mid", "q_crlf_mix", "q_blank_first", "q_nul"], shape_filter=lambda sh: sh.nl <= 3, heavy=lambda sh: sh.nl >= 3),
     ShapeFamily("c03_fast_stop", ["C03", "C01"], SEARCHER, CORE_MOD, GEN,
                 "fast line path with stop-on-nonmatch (switch to the slow loop after the first match) == grep model",
                 FAST_FUNCS, timeout=1200, rules=searcher_rules(2), unwind=lambda sh: 40, quick_shapes=["q_one_unterm", "q_two", "q_blank_mid", "q_crlf_mix", "q_blank_first", "q_nul"], shape_filter=lambda sh: sh.nl <= 3),
@@ -377,7 +377,8 @@ FAMILIES = [
                 "Core::find_by_line_fast from a symbolic line-start position with fully symbolic hit/candidate/offset tables "
                 "and symbolic reporting mode (Confirmed/Candidate): returns exactly the first matching line's range",
                 ("Core::find_by_line_fast", "lines::locate", "lines::without_terminator"), timeout=900,
-                rules=searcher_rules(2), shape_filter=lambda sh: sh.nl >= 2),
+                # precondition of find_by_line_fast: is_line_by_line_fast(), which is false for NUL-terminated records
+                rules=searcher_rules(2), shape_filter=lambda sh: sh.nl >= 2 and sh.term != SH.T_NUL),
     NulFamily("c14_slice_quit", ["C14"], SEARCHER, CORE_MOD, GEN,
               "slice strategy, quit detection: a NUL in the examined portion => begin, one binary notice at the first NUL, finish; "
               "no line delivered; symbolic hit table / contexts / invert / numbering",
